@@ -5,6 +5,9 @@ import Sif.Spec.C08
     cfg admin <role> <addr> | cfg oracle <addr>|- | cfg clp - | cfg clp <n> <addr>*n      → ok
     msg <module> <handler> <signer> [<role> <addr>]                                      → ok | err
     chk c08.guard.<module>.<handler> tag=… <module> <handler> <signer> <ok|err> <changed> → true | false
+    chk c08.removed tag=… <role> <spelling> <still>                                       → true | false
+  Addresses are the spellings the messages carried (upper- or lower-case bech32); the role table is
+  keyed by the raw string, signers are compared through their canonical (lower-case) form.
 -/
 namespace Sif.Drv
 open Sif.Auth Sif.AuthTypes Sif.Spec.C08
@@ -27,15 +30,19 @@ def handleAuth (st : AuthState) : List String → AuthState × String
   | "cfg" :: "clp" :: n :: addrs =>
     if n.toNat? == some addrs.length then ({ st with clpWhitelist := some addrs }, "ok") else (st, "bad-op")
   | ["msg", module, name, signer] =>
-    let (st', o) := stepMsg st (specHandler module name) signer none; (st', showOutcome o)
+    let (st', o) := stepMsg st (specHandler module name) (canonAddr signer) none; (st', showOutcome o)
   | ["msg", module, name, signer, role, addr] =>
-    let (st', o) := stepMsg st (specHandler module name) signer (some (role, addr)); (st', showOutcome o)
+    let (st', o) := stepMsg st (specHandler module name) (canonAddr signer) (some (role, addr)); (st', showOutcome o)
   | ["chk", pred, _tag, module, name, signer, res, changed] =>
     if pred.startsWith "c08.guard" then
       match parseOutcome res, parseBool changed with
-      | some r, some c => (st, toString (refusedUnchanged st (specHandler module name) signer r c))
+      | some r, some c => (st, toString (refusedUnchanged st (specHandler module name) (canonAddr signer) r c))
       | _, _ => (st, "bad-op")
     else (st, "bad-op")
+  | ["chk", "c08.removed", _tag, _role, _spelling, still] =>
+    match parseBool still with
+    | some b => (st, toString (removalEffective b))
+    | none => (st, "bad-op")
   | _ => (st, "bad-op")
 
 end Sif.Drv
